@@ -586,6 +586,7 @@ namespace bloch::runtime {
         if (it != m_functions.end()) {
             call(it->second, {});
         }
+        rethrowDestructorError();
         if (m_gcThreadStarted) {
             m_stopGc = true;
             m_gcRequested = true;
@@ -594,6 +595,7 @@ namespace bloch::runtime {
                 m_gcThread.join();
         }
         runCycleCollector();
+        rethrowDestructorError();
         // Ensure warnings appear before any normal echo output
         if (m_warnOnExit)
             warnUnmeasured();
@@ -1358,6 +1360,14 @@ namespace bloch::runtime {
 
     void RuntimeEvaluator::requestGc() { m_gcRequested = true; }
 
+    void RuntimeEvaluator::rethrowDestructorError() {
+        if (m_pendingDestructorError && !m_inDestructor) {
+            std::exception_ptr err = m_pendingDestructorError;
+            m_pendingDestructorError = nullptr;
+            std::rethrow_exception(err);
+        }
+    }
+
     void RuntimeEvaluator::markObject(const std::shared_ptr<Object>& obj) {
         if (!obj || obj->marked)
             return;
@@ -1495,10 +1505,15 @@ namespace bloch::runtime {
                 thisVal.objectValue = std::shared_ptr<Object>(obj, [](Object*) {});
                 thisVal.className = cur->name;
                 m_env.back()["this"] = {thisVal, false, true};
-                for (auto& stmt : cur->destructorDecl->body->statements) {
-                    exec(stmt.get());
-                    if (m_hasReturn)
-                        break;
+                try {
+                    for (auto& stmt : cur->destructorDecl->body->statements) {
+                        exec(stmt.get());
+                        if (m_hasReturn)
+                            break;
+                    }
+                } catch (const BlochError&) {
+                    if (!m_pendingDestructorError)
+                        m_pendingDestructorError = std::current_exception();
                 }
                 endFrame();
                 m_inDestructor = prevDtor;
@@ -1828,6 +1843,7 @@ namespace bloch::runtime {
 #endif
         if (m_gcRequested.load())
             runCycleCollector();
+        rethrowDestructorError();
         if (!s)
             return;
         auto isTruthy = [](const Value& v) {
